@@ -24,6 +24,8 @@ func runC08(c *Ctx, r *Report) {
 	r.Doc("R-C08.2", "writer ⇄ reader agreement per wire struct and field, with matching codec pairs")
 	r.Doc("R-C08.3", "nothing order-, time- or process-history-dependent reaches the encoder or survives between decodes")
 	r.Doc("R-C08.4", "the hash is not part of the encoded view; it is set from the requested identifier")
+	r.Doc("R-C08.5", "every reader and writer on the load path uses the configured codec (an entry written by one codec and read by the default one does not read back equal)")
+	optionForwarding(c, r, "R-C08.5", append(append(loaderFetchSpecs(), constructorLoaderSpecs()...), constructorLogSpecs()...), "IO")
 
 	// ---- R-C08.1
 	ioFn := p.FuncI("io/cbor", "", "IO")
